@@ -466,6 +466,19 @@ func mkArith(op string, a, b *Term) *Term {
 	if b.Op == "ci" && b.I == 0 && (op == "+" || op == "-") {
 		return a
 	}
+	// (x + c1) + c2 = x + (c1 + c2); (x + c1) - c2 likewise
+	if b.Op == "ci" && (op == "+" || op == "-") && a.Op == "+" && a.Args[1].Op == "ci" {
+		c := a.Args[1].I
+		if op == "+" {
+			c += b.I
+		} else {
+			c -= b.I
+		}
+		return mkArith("+", a.Args[0], mkInt(c))
+	}
+	if b.Op == "ci" && op == "-" {
+		return mkArith("+", a, mkInt(-b.I))
+	}
 	if a.Op == "ci" && a.I == 0 && op == "+" {
 		return b
 	}
